@@ -75,6 +75,8 @@ func c18Setup(c *core.Ctx) {
 func c18Run(c *core.Ctx) {
 	formats := []tar.Format{tar.FormatUSTAR, tar.FormatPAX, tar.FormatGNU}
 	names := []string{"a", strings.Repeat("n", 99), strings.Repeat("d/", 30) + strings.Repeat("n", 40), strings.Repeat("m", 101), strings.Repeat("p", 150) + "/" + strings.Repeat("q", 100), "dir/café.txt",
+		// near misses of the documented Gentoo exclusion (a name *ending* in /gpkg-1 is excluded, these are not)
+		"dist/gpkg-1.2/README", "a/gpkg-1/b", "x/gpkg-10", "src/gpkg-1-r1.ebuild", "x/gpkg-2", "x/Gpkg-1", "gpkg-1/x",
 		"PK\x03\x04name", "MZfile", "%PDF-1.4.txt", "\x7fELFish", "!<arch>\n", "BMimage", "GIF89a.gif", "#!/bin/sh", "<html>", "{\"a\":1}"}
 	modes := []int64{0, 0o644, 0o7777}
 	ids := []int{0, 1000, 2097151, 2097152}
@@ -91,7 +93,7 @@ func c18Run(c *core.Ctx) {
 	neg := &core.Case{Kind: "c18neg", Ints: []int{0, 0}}
 	seen := map[[20]byte]bool{}
 	var rejected, archives, distinct uint64
-	corruptBudget := 40
+	corruptBudget := 14
 	if c.Thorough() {
 		corruptBudget = 1 << 30
 	}
